@@ -48,8 +48,9 @@ clause keeps its generic symptom (`off_value`, `distinct_merged`, ...):
       for a label below median(all)  (only possible with duplicates)
   snapped_to_lowest_observed   round trip returns the lowest or second lowest
       observed value for another label
-  huge_constant_into_gaussian  all-NaN output of a pipeline ending in
-      TransformToGaussian when the largest feasible value has |v| >= 2**53
+  absorbed_constant_into_gaussian  all-NaN output of a pipeline ending in
+      TransformToGaussian when the largest feasible value has |v| >= 2**53 or
+      the feasible values >= median differ by less than 1e-15*(1+|max|)
 """
 import traceback
 
@@ -98,7 +99,7 @@ KNOWN_HALFRANK_NAN = True
 SUF_A = 'below_median_lost_with_infeasible_present'
 SUF_B = 'dup_median_noop'
 SUF_C = 'snapped_to_lowest_observed'
-SUF_E = 'huge_constant_into_gaussian'
+SUF_E = 'absorbed_constant_into_gaussian'
 
 
 # ------------------------------------------------------------------ generator
@@ -441,10 +442,13 @@ def _judge(out, case, kind, tr, y, w, fin, warper):
   # -- finiteness
   if tr['fills']:
     if not np.isfinite(w).all():
-      if (tr['gauss'] and np.isnan(w).all() and F.size
-          and abs(F.max()) >= 2.0 ** 53):
-        # one distinct (remaining) feasible value too large for the
-        # infeasible stage's absolute "+1" offset -> constant array -> 0/0
+      top = F[F >= med] if F.size else F
+      if (tr['gauss'] and np.isnan(w).all() and F.size and (
+          abs(F.max()) >= 2.0 ** 53 or
+          top.max() - top.min() < 1e-15 * (1 + abs(top.max())))):
+        # the feasible values that survive outlier detection are one huge
+        # value or closer together than the rounding of the infeasible
+        # stage's absolute offset (range/2 + 1): constant array -> 0/0
         out.violate('finite/%s/%s' % (kind, SUF_E), desc())
       else:
         out.violate('finite/%s/nonfinite_output' % kind, desc())
@@ -626,7 +630,7 @@ SHRINK = {'quick': 75, 'thorough': 240}
 def families(tier):
   return [
       core.Family('default', check, strategy=default_strategy,
-                  budget={'quick': 3200, 'thorough': 100000},
+                  budget={'quick': 3200, 'thorough': 64000},
                   shards={'quick': 6, 'thorough': 16},
                   max_shrink_s=SHRINK,
                   required_classes=(
@@ -638,7 +642,7 @@ def families(tier):
                       'reuse', 'n1', 'n9_60', 'strict_judged',
                       'roundtrip_judged')),
       core.Family('outliers', check, strategy=outliers_strategy,
-                  budget={'quick': 640, 'thorough': 16000},
+                  budget={'quick': 640, 'thorough': 9600},
                   shards={'quick': 4, 'thorough': 16},
                   max_shrink_s=SHRINK,
                   required_classes=(
@@ -646,7 +650,7 @@ def families(tier):
                       'k:outliers_FFT', 'nontrivial', 'has_outlier',
                       'outlier_dropped', 'has_infeasible', 'x64', 'reuse')),
       core.Family('components', check, strategy=components_strategy,
-                  budget={'quick': 2400, 'thorough': 60000},
+                  budget={'quick': 2400, 'thorough': 40000},
                   shards={'quick': 6, 'thorough': 16},
                   max_shrink_s=SHRINK,
                   required_classes=(
